@@ -620,7 +620,20 @@ pub fn check_iter(prop: &str, case: &ConcCase, res: &IterResult) -> IterVerdict 
     }
     // ---- values per thread
     let mut panicked_cycle = false;
+    let calls = if writer { top_calls(&res.log) } else { Vec::new() };
+    let may_poison = case
+        .prog
+        .nodes
+        .iter()
+        .any(|n| matches!(n.kind, Kind::Fix | Kind::FixJ | Kind::Fb));
+    // the k-th observation of a handle belongs to its k-th top-level call in the log
+    let mut nth_obs: HashMap<usize, usize> = HashMap::new();
     for o in &res.obs {
+        let k = {
+            let e = nth_obs.entry(o.th).or_insert(0);
+            *e += 1;
+            *e - 1
+        };
         let Some(inp) = inputs_for_rev(&res.inputs_at, o.rev) else { continue };
         let exp = expect_any(prop, &case.prog, inp, &o.req, cyclic);
         c.inc("thread_results");
@@ -629,7 +642,14 @@ pub fn check_iter(prop: &str, case: &ConcCase, res: &IterResult) -> IterVerdict 
                 c.inc("cancelled_pending_write");
                 continue;
             }
-            (Outcome::Panic(PanicClass::Propagated, _), _) if writer && flag_during_call(&res.log, o) => {
+            (Outcome::Panic(PanicClass::Propagated, _), _)
+                if writer
+                    && calls
+                        .get(o.th)
+                        .and_then(|v| v.get(k))
+                        .is_some_and(|tc| tc.req == o.req && tc.out.as_ref() == Some(&o.out))
+                    && propagated_by_pending_write(&res.log, &calls, o.th, k, may_poison) =>
+            {
                 // the computation this reader was waiting for was cancelled by the pending write
                 c.inc("propagated_from_cancelled_reader");
                 continue;
@@ -955,32 +975,115 @@ fn check_writer(log: &[Stamped]) -> (Vec<String>, Counts) {
     (v, c)
 }
 
-/// True if a cancellation flag was raised while the call that produced `o` was in progress.
-fn flag_during_call(log: &[Stamped], o: &Obs) -> bool {
-    // find the o.op-th call of handle o.th
-    let mut in_call = false;
-    let mut seen_flag = false;
-    let mut nth = 0usize;
-    let mut calls_seen: Vec<(usize, bool)> = Vec::new();
-    for (_, _, r) in log {
+/// One top-level call of a reader handle during the parallel phase, as recorded by the handle's own thread.
+struct TopCall {
+    call: u64,
+    /// clock of the `Ret` record (u64::MAX if the call never returned)
+    ret: u64,
+    /// log thread index of the thread that made the call
+    th: u8,
+    req: Req,
+    out: Option<Outcome>,
+}
+
+/// Per reader handle (index = handle number): its top-level calls in program order.
+fn top_calls(log: &[Stamped]) -> Vec<Vec<TopCall>> {
+    let mut calls: Vec<Vec<TopCall>> = Vec::new();
+    for (c, th, r) in log {
         match r {
-            Rec::Call(h, q) if *h as usize == o.th && *q == o.req => {
-                in_call = true;
-                seen_flag = false;
-            }
-            Rec::Ev(Ev::DidSetCancellationFlag) if in_call => seen_flag = true,
-            Rec::Ret(h, out) if *h as usize == o.th && in_call => {
-                in_call = false;
-                if *out == o.out {
-                    calls_seen.push((nth, seen_flag));
+            Rec::Call(h, q) if *h > 0 => {
+                let h = *h as usize;
+                if calls.len() <= h {
+                    calls.resize_with(h + 1, Vec::new);
                 }
-                nth += 1;
+                calls[h].push(TopCall {
+                    call: *c,
+                    ret: u64::MAX,
+                    th: *th,
+                    req: q.clone(),
+                    out: None,
+                });
+            }
+            Rec::Ret(h, out) if *h > 0 => {
+                if let Some(tc) = calls.get_mut(*h as usize).and_then(|v| v.last_mut()) {
+                    if tc.out.is_none() {
+                        tc.ret = *c;
+                        tc.out = Some(out.clone());
+                    }
+                }
             }
             _ => {}
         }
     }
-    // lenient: some matching call with that outcome overlapped a flag
-    calls_seen.iter().any(|(_, f)| *f)
+    calls
+}
+
+/// C20: is the `Cancelled::PropagatedPanic` that ended call `k` of handle `h` the consequence of a
+/// pending write? Decided on records whose order is sound with respect to the real actions:
+///  * `WriteBegin` is logged by the writer *before* it enters salsa and `WriteDone` after the write
+///    returned, so "a write was in progress during the call" is `WriteBegin < Ret` and `WriteDone > Call`.
+///    (salsa's `DidSetCancellationFlag` event is emitted *after* the flag is stored, so its record can be
+///    stamped later than the `Ret` of a reader that has already been released by a cancelled reader: the
+///    event record is not used here.)
+///  * some *other* reader's call that overlaps this one was cancelled itself (`PendingWrite`, or
+///    `PropagatedPanic` in a chain of waiters): every top-level record is written by the reader's own
+///    thread around the real call, and a cancelled reader logs its `Ret` after it has released (or
+///    poisoned) what this reader was waiting for.
+///  * programs without cycle-recovering functions: `PropagatedPanic` is only thrown by a thread woken
+///    from `block_on`, whose `WillBlockOn` event is emitted by that thread (under salsa's
+///    dependency-graph lock) before it blocks. A function with cycle recovery (`cycle_fn` /
+///    `cycle_result`) that is cancelled while executing leaves a poisoned memo, and a reader of the same
+///    revision and cancellation epoch that claims the key afterwards answers `PropagatedPanic` without
+///    ever blocking (`fetch_cold_cycle` / `previous_iteration`), whether or not the program has a cycle.
+fn propagated_by_pending_write(log: &[Stamped], calls: &[Vec<TopCall>], h: usize, k: usize, may_poison: bool) -> bool {
+    let Some(me) = calls.get(h).and_then(|v| v.get(k)) else { return false };
+    // (a) a write in progress
+    let mut begin: Option<u64> = None;
+    let mut write_overlaps = false;
+    for (c, _, r) in log {
+        match r {
+            Rec::WriteBegin(_) => begin = Some(*c),
+            Rec::WriteDone(..) => {
+                if let Some(b) = begin.take() {
+                    if b < me.ret && *c > me.call {
+                        write_overlaps = true;
+                    }
+                }
+            }
+            _ => {}
+        }
+    }
+    if let Some(b) = begin {
+        // a write that never returned
+        if b < me.ret {
+            write_overlaps = true;
+        }
+    }
+    if !write_overlaps {
+        return false;
+    }
+    // (b) no cycle-recovering function: this thread blocked on another thread during the call
+    let first_block = log
+        .iter()
+        .find(|(c, th, r)| {
+            *c > me.call && *c < me.ret && *th == me.th && matches!(r, Rec::Ev(Ev::WillBlockOn(..)))
+        })
+        .map(|(c, _, _)| *c);
+    if !may_poison && first_block.is_none() {
+        return false;
+    }
+    // (c) another reader's overlapping call was cancelled
+    calls.iter().enumerate().any(|(oh, v)| {
+        oh != h
+            && v.iter().any(|tc| {
+                tc.call < me.ret
+                    && tc.ret > me.call
+                    && matches!(
+                        tc.out,
+                        Some(Outcome::Panic(PanicClass::PendingWrite | PanicClass::Propagated, _))
+                    )
+            })
+    })
 }
 
 /// C21: monitor over bracketed `Cancel`/`CancelDone` records and top-level calls. `cancel()` and
@@ -1354,6 +1457,11 @@ pub fn classify_conc(case: &ConcCase, res: &IterResult, violations: &[String]) -
             if let Req::Node(n) = q {
                 if let Some(Expect::Val(x)) = cyc_expect("C12", &case.prog, &res.final_inp, *n) {
                     if *out != Outcome::Val(x) {
+                        if case.mode == Mode::WriterReaders && stale_memo_from_abandoned_call(case, res) {
+                            // C20's own clause (results of a cancelled computation must not survive the
+                            // write): never attributed to a finding of the fixpoint machinery
+                            return None;
+                        }
                         return crate::camp_single::classify_cyc_mismatch(
                             &case.prog,
                             &res.final_inp,
@@ -1389,6 +1497,77 @@ pub fn classify_conc(case: &ConcCase, res: &IterResult, violations: &[String]) -
         return Some("C14/provisional_memo_of_plain_participant_served_to_other_thread");
     }
     None
+}
+
+/// Writer/reader cases: is some function that answers wrongly after the parallel phase *without having
+/// executed in the final revision* served from a memo whose last completed execution ran inside a
+/// top-level call that did not return a value (it was cancelled or unwound)? Such a memo is a leftover of
+/// an abandoned computation.
+fn stale_memo_from_abandoned_call(case: &ConcCase, res: &IterResult) -> bool {
+    let log = &res.log;
+    let start = log
+        .iter()
+        .rposition(|(_, _, r)| matches!(r, Rec::WriteDone(..)))
+        .map(|i| i + 1)
+        .unwrap_or(0);
+    // top-level spans per log thread: (call clock, ret clock, returned a value)
+    let mut spans: Vec<(u8, u64, u64, bool)> = Vec::new();
+    let mut open: HashMap<u8, u64> = HashMap::new();
+    for (c, th, r) in log {
+        match r {
+            Rec::Call(..) => {
+                open.insert(*th, *c);
+            }
+            Rec::Ret(_, out) => {
+                if let Some(b) = open.remove(th) {
+                    spans.push((*th, b, *c, !matches!(out, Outcome::Panic(..))));
+                }
+            }
+            _ => {}
+        }
+    }
+    for (q, out) in &res.post {
+        let Req::Node(n) = q else { continue };
+        let Some(Expect::Val(x)) = cyc_expect("C12", &case.prog, &res.final_inp, *n) else { continue };
+        if *out == Outcome::Val(x) {
+            continue;
+        }
+        let executed_now = log[start..]
+            .iter()
+            .any(|(_, _, r)| matches!(r, Rec::Enter(a) if a.node as usize == *n));
+        if executed_now {
+            continue;
+        }
+        let last_exit = log[..start]
+            .iter()
+            .rev()
+            .find(|(_, _, r)| matches!(r, Rec::Exit(a, _) if a.node as usize == *n));
+        let Some((c, th, _)) = last_exit else { continue };
+        let clean = spans
+            .iter()
+            .any(|(sth, b, e, ok)| sth == th && b < c && c < e && *ok);
+        if !clean {
+            return true;
+        }
+    }
+    false
+}
+
+/// The records of the parallel phase without the protocol trace and the per-read records (at most the
+/// last 400), one per line: `clock thread record`.
+#[cfg(not(feature = "shuttle"))]
+fn trace_excerpt(log: &[Stamped]) -> String {
+    let from = log
+        .iter()
+        .position(|(_, _, r)| matches!(r, Rec::Note("parallel-begin")))
+        .unwrap_or(0);
+    let lines: Vec<String> = log[from..]
+        .iter()
+        .filter(|(_, _, r)| !matches!(r, Rec::Dg(_) | Rec::Fp(_) | Rec::Read(..)))
+        .map(|(c, th, r)| format!("{c} t{th} {r:?}"))
+        .collect();
+    let skip = lines.len().saturating_sub(400);
+    lines[skip..].join("\n")
 }
 
 // --------------------------------------------------------------------------------------------
@@ -1559,6 +1738,8 @@ pub fn conc_case(o: &Opts, case_seed: u64) -> CaseReport {
             let ver = check_iter(&prop, &case, &res);
             if !ver.violations.is_empty() || res.stuck {
                 crate::camp_single::dump_log(&res.log);
+                // the observed history goes into the replay file: OS-thread runs are timing dependent
+                rep.replay_extra = trace_excerpt(&res.log);
             }
             let mut a = acc.lock().unwrap();
             a.iterations += 1;
